@@ -207,7 +207,8 @@ func (b *batchedMutations) Set(key kvstore.Key, value kvstore.Value) error {
 	defer b.Unlock()
 
 	delete(b.deleteOperations, stringKey)
-	b.setOperations[stringKey] = value
+	// always copy the value: the caller may reuse its buffer before Commit
+	b.setOperations[stringKey] = byteutils.ConcatBytes(value)
 
 	return nil
 }
